@@ -18,8 +18,13 @@ TOL = 1e-8
 
 def _vec(rng, n=None):
     n = n or rng.randint(3, 25)
-    kind = rng.choice(["int", "halves", "offset", "ties", "wide"])
-    if kind == "int":
+    kind = rng.choice(["int", "halves", "offset", "ties", "wide", "symmetric"])
+    if kind == "symmetric":
+        # dyadic values v, -v (and sometimes a zero): the mean is exactly zero, also in floating point
+        h = [Fraction(rng.randint(1, 40), 4) for _ in range(max(1, n // 2))]
+        v = h + [-x for x in h] + ([Fraction(0)] if rng.random() < 0.5 else [])
+        rng.shuffle(v)
+    elif kind == "int":
         v = [Fraction(rng.randint(-20, 20)) for _ in range(n)]
     elif kind == "halves":
         v = [Fraction(rng.randint(-40, 40), 4) for _ in range(n)]
@@ -178,8 +183,23 @@ def impl_obs(c):
     return ["ok", _mat(a), _mat(b)]
 
 
-def _close(m, i):
+def _poly_tol(c):
+    """orthogonal polynomials by QR of a Vandermonde matrix: the rounding error of the implementation grows
+    with the condition number of that matrix (the model is exact), so the comparison allows 100 eps cond"""
+    import numpy as np
+    x = np.array([float(Fraction(v)) for v in c["xs"]])
+    try:
+        cond = float(np.linalg.cond(np.vander(x - x.mean(), int(c["degree"]) + 1)))
+    except Exception:  # noqa
+        return TOL
+    if not np.isfinite(cond):
+        return TOL
+    return max(TOL, 100 * 2.3e-16 * cond)
+
+
+def _close(m, i, tol=None):
     import math
+    tol = tol or TOL
     if len(m) != len(i):
         return False
     for rm, ri in zip(m, i):
@@ -191,7 +211,7 @@ def _close(m, i):
             y = float(b)
             if math.isnan(y) or math.isinf(y):
                 return None
-            if abs(x - y) > TOL * (1 + abs(x)):
+            if abs(x - y) > tol * (1 + abs(x)):
                 return False
     return True
 
@@ -223,8 +243,21 @@ def compare(c, mo, obs):
             if ma[0] != "ok" or mb[0] != "ok":
                 return None
             ma, mb = ma[1], mb[1]
-    for name, m, i in (("training", ma, obs[1]), ("later", mb, obs[2])):
-        r = _close(m, i)
+    skip = set()
+    if t == "bs" and not c.get("knots"):
+        # quantile knots are exact rationals in the model and rounded floats in numpy.  The basis is
+        # discontinuous at a knot of multiplicity >= degree + 1 (an inner knot that ties with a boundary
+        # knot or, for low degrees, with other inner knots): at such an abscissa a one-ulp difference in
+        # the knot decides the value, so the row is not comparable (the oracle still judges it).
+        ks = [Fraction(v) for v in body[0]]
+        d = int(c["degree"])
+        inner = ks[d + 1:len(ks) - (d + 1)]
+        skip = {v for v in set(inner) if ks.count(v) >= d + 1}
+    for name, m, i, xs_ in (("training", ma, obs[1], c["xs"]), ("later", mb, obs[2], c["ys"])):
+        if skip and len(m) == len(i) == len(xs_):
+            keep = [j for j, v in enumerate(xs_) if Fraction(v) not in skip]
+            m, i = [m[j] for j in keep], [i[j] for j in keep]
+        r = _close(m, i, _poly_tol(c) if (t == "poly" and not c["raw"]) else None)
         if r is None:
             return None
         if not r:
